@@ -17,7 +17,7 @@ LEVEL = "exploration"
 RULE = (
     "case = batch of JSON values; each value is encoded by 4 worker processes (validation backend Pydantic/fallback x JSON backend orjson/stdlib, selected at import "
     "time) through fast_json.dumps (default, compact separators, indent=None, after a pretty-printing call) and the model_dump_json path (request params / response result), and every distinct encoding is decoded "
-    "by every worker through fast_json.loads; oracle: decode(encode(v)) equals v type-strictly (float bit pattern, int exactness) for every (encoder, decoder) pair and no "
+    "by every worker through fast_json.loads, framed by the stdio reader (alone, and all together in reads not aligned to lines) and the values are also written by the stdio writer as plain-dict messages; oracle: decode(encode(v)) equals v type-strictly (float bit pattern, int exactness) for every (encoder, decoder) pair and no "
     "encoding contains a raw LF/CR; values: bounded-exhaustive grammar (depth<=3, reduced alphabets at depth) over a leaf alphabet with 64-bit boundaries, -0.0, 1e308, "
     "denormals, every C0 control, U+0085/2028/2029, BMP boundary and astral characters, non-ASCII keys, plus Hypothesis recursive values and seeded deep values (100..300 levels, around orjson's 254-level limit) and runs of same-shaped sibling containers encoded one after the other in one process; non-trivial = value contains an int "
     "beyond 2^53, a non-integral float, a control/line-separator/non-ASCII character or null; distinct = distinct value"
@@ -78,6 +78,36 @@ def expand_deep(v: Any) -> Any:
     return v
 
 
+def _writer_lines(messages: List[Any]) -> Any:
+    """the messages through a real StdioClient writer task (scripted child): the newline-terminated lines on the pipe"""
+    import asyncio
+
+    from chuk_mcp.transports.stdio.stdio_client import StdioClient
+
+    from ..fakeproc import FakeProcess, patched_open_process, stdio_params
+    from ..vclock import run_virtual
+
+    procs: List[FakeProcess] = []
+
+    async def main():
+        with patched_open_process(procs):
+            async with StdioClient(stdio_params()) as client:
+                _r, w = client.get_streams()
+                for m in messages:
+                    await w.send(m)
+                await asyncio.sleep(0.05)
+
+    try:
+        run_virtual(main)
+    except Exception as e:  # noqa
+        return f"{type(e).__name__}: {e}"
+    data = procs[0].stdin.data if procs else b""
+    lines = data.split(b"\n")
+    if lines and lines[-1] != b"":
+        return f"last line not newline-terminated: ...{data[-60:]!r}"
+    return lines[:-1]
+
+
 def check(case: Dict[str, Any]) -> Outcome:
     out = Outcome()
     values: List[Any] = [expand_deep(v) for v in case["values"]]
@@ -101,6 +131,38 @@ def check(case: Dict[str, Any]) -> Outcome:
     for t in tlist:
         got_lines, err = _stdio_lines([(t + "\n").encode("utf-8")])
         framed[t] = (got_lines, err)
+    # ... and all of them together, as consecutive lines arriving in reads that are not aligned to lines (the first
+    # frame spread over several reads, the following ones in the same read as its tail), must come out as that many frames
+    if len(tlist) >= 2:
+        order = sorted(tlist, key=len, reverse=True)[:40]
+        blob = b"".join((t + "\n").encode("utf-8") for t in order)
+        first = len((order[0] + "\n").encode("utf-8"))
+        for cutset in ([first // 3, 2 * first // 3], [max(1, first - 2)], [first // 2, first + 1], list(range(4096, len(blob), 4096))):
+            pos = [0] + sorted({c for c in cutset if 0 < c < len(blob)}) + [len(blob)]
+            chunks = [blob[a:b] for a, b in zip(pos, pos[1:]) if b > a]
+            got_multi, merr = _stdio_lines(chunks)
+            if merr or len(got_multi) != len(order):
+                out.fail("encoded-messages-are-not-one-frame-each-when-reads-are-not-line-aligned", f"{len(order)} encodings sent as consecutive lines in {len(chunks)} reads (cuts {cutset[:4]}): reader produced {len(got_multi)} frames ({merr})")
+                break
+    # ... and written by the stdio writer (plain-dict messages, the path that encodes through the JSON backend in use
+    # in this process), each value must arrive as exactly one line that decodes to it
+    w_lines = _writer_lines([{"jsonrpc": "2.0", "method": "m", "params": {"v": v_}} for v_ in values])
+    if isinstance(w_lines, str):
+        out.fail("stdio-writer-failed-on-in-domain-values", w_lines)
+    elif len(w_lines) != len(values):
+        out.fail("stdio-writer-frames-differ-from-messages", f"{len(values)} messages written, {len(w_lines)} newline-terminated lines on the pipe")
+    else:
+        import json as _json
+
+        for v_, ln in zip(values, w_lines):
+            try:
+                back = _json.loads(ln.decode("utf-8"))
+            except Exception as e_:  # noqa
+                out.fail("stdio-writer-line-not-json", f"{type(e_).__name__}: {ln[:120]!r}")
+                break
+            if not strict_eq(back.get("params", {}).get("v", "$missing") if isinstance(back, dict) else "$notdict", v_):
+                out.fail("stdio-writer-line-differs-from-value", str(first_diff(back.get("params", {}).get("v") if isinstance(back, dict) else back, v_))[:300])
+                break
     nt = 0
     for vi, v in enumerate(values):
         if is_nontrivial_json(v):
